@@ -259,7 +259,7 @@ def emit(n, env, consts=None):
         ws = [a.w or 0 for a in n.args[1:]]
         if name in ('min', 'max') and len(args) == 2:
             n.w = max(ws)
-            return '(Nat.%s %s %s)' % (name, args[0], args[1])
+            return '(%s %s %s)' % (name, args[0], args[1])
         key = name + '()'
         if key in env:
             lean, w, isb = env[key]
